@@ -201,7 +201,7 @@ def run_part(part, tier, workdir, seed):
     os.makedirs(workdir, exist_ok=True)
     log = os.path.join(workdir, 'kani-%s.log' % part['name'].replace(':', '_'))
     timeout = part.get('timeout_thorough', part.get('timeout', 1500)) if tier == 'thorough' else part.get('timeout', 1500)
-    rc, out = run_cmd(cmd, cwd, timeout, log)
+    rc, out = run_cmd(cmd, cwd, timeout, log, mem_gb=part.get('mem_gb', 40))
     res['wall_s'] = time.time() - t0
     res['tool_output'] = out[-4000:]
     if rc is None:
